@@ -8,7 +8,7 @@
 
 cfg is the JSON shape documented in spec/NdnPackets.tla.  Payload bytes never go to TLA+.
 """
-import ctypes, hashlib, json, os
+import ctypes, hashlib, json, os, random, zlib
 
 from harness import tlc, strict_tlv as st
 from harness.tlc import MachineryError
@@ -208,6 +208,98 @@ def make_signer(sg, rng, pool, kl, target=True, inner=None):
     return Recorder(inner, target=sg['a'] if (sg['kind'] == 'ecdsa' and target) else None)
 
 
+# ----------------------------------------------------------------------------- representations (NdnPackets: cfg.rep)
+
+ANY_FORM = {'box': 'any', 'item': 'any'}
+SEQ_BOXES = ('list', 'tuple', 'iter')
+FLAT_BOXES = ('uri', 'wire', 'wirebuf', 'wireview')
+ITEM_KINDS = ('bytes', 'views', 'strs', 'mixed')
+NAME_FORMS = [{'box': b_, 'item': i_} for b_ in SEQ_BOXES for i_ in ITEM_KINDS] + [{'box': b_, 'item': 'none'} for b_ in FLAT_BOXES]
+BIN_FORMS = ('bytes', 'bytearray', 'memoryview')
+# the form names build(name_form=...) has always taken, as forms of the specification
+LEGACY_FORMS = {'tuple': {'box': 'tuple', 'item': 'bytes'}, 'iter': {'box': 'iter', 'item': 'bytes'},
+                'uri': {'box': 'uri', 'item': 'none'}, 'wire': {'box': 'wire', 'item': 'none'},
+                'wirebuf': {'box': 'wirebuf', 'item': 'none'}, 'views': {'box': 'list', 'item': 'views'},
+                'plain': {'box': 'list', 'item': 'bytes'}}
+DEF_REP = {'name': ANY_FORM, 'fh': [], 'kl': ANY_FORM, 'fbi': 'any', 'pay': 'any'}
+# rotation of the positions a configuration leaves open; strides co-prime with the number of forms, so that the
+# positions do not move in step
+_ROT = {'fh': 0, 'kl': 0, 'fbi': 0, 'pay': 0}
+
+
+def _rot_form(pos):
+    _ROT[pos] += 1
+    return NAME_FORMS[(_ROT[pos] * {'fh': 5, 'kl': 7}[pos]) % len(NAME_FORMS)]
+
+
+def _rot_bin(pos):
+    _ROT[pos] += 1
+    return BIN_FORMS[_ROT[pos] % 3]
+
+
+def name_arg(form, comps):
+    """The list of encoded components `comps` as the NonStrictName representation `form` (NdnPackets!Arg)."""
+    cs = [bytes(c) for c in comps]
+    box, item = form['box'], form['item']
+    try:
+        return _name_arg(box, item, cs)
+    except MachineryError:
+        raise
+    except Exception:  # noqa: the URI text comes from the library (Name.to_str: C09's subject); without it, the plain form
+        return cs
+
+
+def _name_arg(box, item, cs):
+    if box == 'uri':
+        return enc.Name.to_str(cs)
+    if box == 'wire':
+        return enc.Name.to_bytes(cs)
+    if box == 'wirebuf':
+        return bytearray(enc.Name.to_bytes(cs))
+    if box == 'wireview':
+        return memoryview(bytearray(enc.Name.to_bytes(cs)))
+    if item == 'bytes':
+        items = cs
+    elif item == 'views':
+        items = [memoryview(bytearray(c)) for c in cs]
+    elif item == 'strs':
+        items = [enc.Component.to_str(c) for c in cs]
+    elif item == 'mixed':
+        items = [enc.Component.to_str(c) if i % 2 == 0 else c for i, c in enumerate(cs)]
+    else:
+        raise MachineryError('unknown item kind %r' % (item,))
+    if box == 'list':
+        return items
+    if box == 'tuple':
+        return tuple(items)
+    if box == 'iter':
+        return (c for c in items)                          # a one-shot iterator is an Iterable too
+    raise MachineryError('unknown name box %r' % (box,))
+
+
+def bin_arg(form, data):
+    """Octet-string parameter `data` (bytes or None) as bytes / bytearray / memoryview."""
+    if data is None or form == 'bytes':
+        return data
+    if form == 'bytearray':
+        return bytearray(data)
+    if form == 'memoryview':
+        return memoryview(bytearray(data))
+    raise MachineryError('unknown octet-string form %r' % (form,))
+
+
+def _pinned(f):
+    return f is not None and f != 'any' and (not isinstance(f, dict) or f.get('box') != 'any')
+
+
+def rand_rep(rng, cfg):
+    """A representation for every name-valued / octet-string parameter of cfg, drawn from rng."""
+    def nf():
+        return dict(rng.choice(NAME_FORMS))
+    return {'name': nf(), 'fh': [nf() for _ in cfg.get('fh', [])], 'kl': nf(),
+            'fbi': rng.choice(BIN_FORMS), 'pay': rng.choice(BIN_FORMS)}
+
+
 class Built:
     pass
 
@@ -222,35 +314,41 @@ def build(cfg, rng, pool, target=True, name_form='list', live=None):
     b = Built()
     b.cfg = cfg
     b.comps = name_bytes(cfg['name'], rng)
+    # the representation actually used for every parameter (same shape as cfg.rep; a replay pins it: cfg.rep = b.forms)
+    forms = b.forms = {'name': ANY_FORM, 'fh': [], 'kl': ANY_FORM, 'fbi': 'any', 'pay': 'any'}
+    b.kl_form = None
     if live is not None:
         b.kl = live[1]
         b.rec = make_signer(cfg['sg'], rng, pool, b.kl, target, inner=live[0])
     else:
         b.kl = name_bytes(cfg['sg']['kl'], rng) if cfg['sg']['haskl'] else None
-        b.rec = make_signer(cfg['sg'], rng, pool, b.kl, target)
+        kl_given = b.kl
+        if b.kl is not None and cfg['sg']['kind'] != 'none':
+            # the signer is constructed with the key name in its representation; b.kl stays the list of encoded components
+            r_ = (cfg.get('rep') or DEF_REP).get('kl')
+            b.kl_form = forms['kl'] = dict(r_) if _pinned(r_) else _rot_form('kl')
+            kl_given = name_arg(b.kl_form, b.kl)
+        b.rec = make_signer(cfg['sg'], rng, pool, kl_given, target)
     b.exc = None
     b.wire = None
     b.final_name = None
     # the name in the forms a NonStrictName may take; 'auto' (every caller that does not ask for a form) rotates
-    # through them, so that each abstract configuration is sooner or later built from every form
-    if name_form == 'list':
+    # through them, so that each abstract configuration is sooner or later built from every form.
+    # Precedence: an explicit name_form argument, then the form the configuration pins (cfg.rep.name), then the rotation.
+    rep = cfg.get('rep') or DEF_REP
+    if name_form == 'list' and _pinned(rep.get('name')):
+        forms['name'] = dict(rep['name'])
+        name_form = 'rep'
+    elif name_form == 'list':
         _FORM['n'] += 1
         name_form = ('list', 'list', 'tuple', 'iter', 'uri', 'wire', 'wirebuf', 'views')[_FORM['n'] % 8]
+    if name_form != 'rep':
+        if isinstance(name_form, dict):
+            forms['name'] = dict(name_form)
+        else:
+            forms['name'] = dict(LEGACY_FORMS.get(name_form, LEGACY_FORMS['plain']))
     b.name_form = name_form
-    if name_form == 'tuple':
-        name_arg = tuple(b.comps)
-    elif name_form == 'iter':
-        name_arg = (c for c in b.comps)                    # a one-shot iterator is an Iterable too
-    elif name_form == 'uri':
-        name_arg = enc.Name.to_str(b.comps)
-    elif name_form == 'wire':
-        name_arg = enc.Name.to_bytes(b.comps)
-    elif name_form == 'wirebuf':
-        name_arg = bytearray(enc.Name.to_bytes(b.comps))
-    elif name_form == 'views':
-        name_arg = [memoryview(bytearray(c)) for c in b.comps]
-    else:
-        name_arg = b.comps
+    name_arg_ = name_arg(forms['name'], b.comps) if forms['name'] != LEGACY_FORMS['plain'] else b.comps
     import ndn.security.signer.sha256_digest_signer as dsm
     saved = dsm.gen_nonce_64
     if cfg['sg']['kind'] == 'digestI':
@@ -259,15 +357,18 @@ def build(cfg, rng, pool, target=True, name_form='list', live=None):
     try:
         if cfg['kind'] == 'interest':
             b.fh = [name_bytes(n, rng) for n in cfg['fh']]
+            rfh = rep.get('fh') or []
+            forms['fh'] = [dict(rfh[i]) if i < len(rfh) and _pinned(rfh[i]) else _rot_form('fh') for i in range(len(b.fh))]
             b.param = InterestParam(
                 can_be_prefix=cfg['cbp'], must_be_fresh=cfg['mbf'],
                 nonce=rng.getrandbits(32) if cfg['nonce'] else None,
                 lifetime=uint_of_width(cfg['life'], rng) if cfg['life'] else None,
                 hop_limit=rng.randrange(256) if cfg['hop'] else None,
-                forwarding_hint=[list(n) for n in b.fh])
+                forwarding_hint=[name_arg(f, n) for f, n in zip(forms['fh'], b.fh)])
             b.payload = rng.randbytes(cfg['app']) if cfg['app'] >= 0 else None
+            forms['pay'] = rep['pay'] if _pinned(rep.get('pay')) else _rot_bin('pay')
             try:
-                w, fn = make_interest(name_arg, b.param, b.payload, signer=b.rec, need_final_name=True)
+                w, fn = make_interest(name_arg_, b.param, bin_arg(forms['pay'], b.payload), signer=b.rec, need_final_name=True)
                 b.raw, b.raw_final_name = w, fn          # the caller's objects, kept alive by histories
                 b.wire = bytes(w)
                 b.final_name = [bytes(c) for c in fn]
@@ -280,12 +381,15 @@ def build(cfg, rng, pool, target=True, name_form='list', live=None):
                                   freshness_period=uint_of_width(m['fp'], rng) if m['fp'] else None,
                                   final_block_id=rng.randbytes(m['fbi']) if m['fbi'] >= 0 else None)
                 b.meta_in = (b.meta.content_type, b.meta.freshness_period, b.meta.final_block_id)
+                forms['fbi'] = rep['fbi'] if _pinned(rep.get('fbi')) else _rot_bin('fbi')
+                b.meta.final_block_id = bin_arg(forms['fbi'], b.meta.final_block_id)
             else:
                 b.meta = None
                 b.meta_in = None
             b.payload = rng.randbytes(cfg['content']) if cfg['content'] >= 0 else None
+            forms['pay'] = rep['pay'] if _pinned(rep.get('pay')) else _rot_bin('pay')
             try:
-                b.raw = make_data(name_arg, b.meta, b.payload, signer=b.rec)
+                b.raw = make_data(name_arg_, b.meta, bin_arg(forms['pay'], b.payload), signer=b.rec)
                 b.wire = bytes(b.raw)
             except Exception as e:  # noqa
                 b.exc = e
@@ -539,6 +643,13 @@ def rand_cfg(rng, kind=None, maxc=8, big=True):
         if rng.random() < 0.8:
             c['meta'] = {'p': True, 'ct': rng.choice([0, 1, 1, 2, 4, 8]), 'fp': rng.choice([0, 1, 2, 4, 8]),
                          'fbi': rng.choice([-1, -1, 0, 3, 10, 260])}
+    # the representation of every name-valued / octet-string parameter: drawn from a generator derived from the
+    # configuration, not from rng (the sequence of configurations for a given seed stays what it was); the packet name
+    # stays open in one configuration of three (rotation / the caller's name_form)
+    rr = random.Random(zlib.crc32(json.dumps(c, sort_keys=True).encode()))
+    c['rep'] = rand_rep(rr, c)
+    if rr.random() < 0.34:
+        c['rep']['name'] = dict(ANY_FORM)
     return c
 
 
